@@ -104,15 +104,31 @@ func c26GenBody(r *Rng, cred string) []byte {
 	}
 }
 
+// c26GenRes draws the resolver's answer (identity, ok, err) as the full product: ok in {true,false}
+// x identity {empty, populated, partially populated} x err {nil, AuthUnavailable, other}.
 func c26GenRes(r *Rng) string {
-	switch r.Intn(10) {
-	case 0, 1, 2:
-		return "unknown"
-	case 3:
-		return fmt.Sprintf("unavail:%d:%s", Pick(r, []int{0, 1, 7, 30, -1, -5}), XS(Pick(r, []string{"credential store unreachable", "timeout", ""})))
-	default:
-		return fmt.Sprintf("id:%s:%s:%d", XS(Pick(r, []string{"subject@example", "svc-account", "", "café@example", "<admin>"})), XS(Pick(r, []string{"laptop", "ci token", ""})), Pick(r, []int{0, -1, 1, 60, 3600, 300}))
+	if r.Chance(15) {
+		return Pick(r, []string{"unknown", "unknown", fmt.Sprintf("unavail:%d:%s", Pick(r, []int{0, 7, -1}), XS("timeout")), fmt.Sprintf("id:%s:%s:%d", XS("subject@example"), XS("laptop"), 0)})
 	}
+	p, n, ttl := "", "", 0
+	switch r.Intn(5) {
+	case 0: // empty identity
+	case 1: // only a principal (an expired / revoked row still naming its owner)
+		p = Pick(r, []string{"alice@example", "owner-of-expired-row", "café@example", "<admin>"})
+	case 2: // only a name / ttl
+		n, ttl = Pick(r, []string{"laptop", "ci token"}), Pick(r, []int{0, 60, -1})
+	default:
+		p, n, ttl = Pick(r, []string{"subject@example", "svc-account", "bob@example"}), Pick(r, []string{"laptop", "ci token", ""}), Pick(r, []int{0, -1, 1, 60, 3600, 300})
+	}
+	ok := Pick(r, []string{"0", "1", "1"})
+	errk, ra, et := "nil", 0, ""
+	switch r.Intn(8) {
+	case 0:
+		errk, ra, et = "unavail", Pick(r, []int{0, 1, 7, 30, -5}), Pick(r, []string{"credential store unreachable", "timeout", ""})
+	case 1:
+		errk, et = "other", Pick(r, []string{"boom", "sql: connection refused"})
+	}
+	return fmt.Sprintf("r:%s:%s:%d:%s:%s:%s:%d", ok, errk, ra, XS(et), XS(p), XS(n), ttl)
 }
 
 func c26Gen(g *Gen) {
